@@ -11,12 +11,12 @@ RULE = ('Every <syntax> note of every segment of every shipped map file (read in
         'mentioned elements x every segment length 0..max position+1. Monitors: (1) note text parsed by the real loader equals the independent '
         'parse; (2) pyx12.syntax.is_syntax_valid equals the X12 definition; (3) routing: element errors of segment_if.is_valid with the notes '
         'active minus the errors with the notes removed must be exactly one code-10 error per violated E note and one code-2 error per other '
-        'violated note (multiset). The thorough tier additionally fills absent-but-mentioned positions with explicit empty elements/blank '
+        'violated note (multiset). A second variant writes every present position as \':X\' (first component empty, second not: still present). The thorough tier additionally fills absent-but-mentioned positions with explicit empty elements/blank '
         'composites and uses multi-component composites. non-trivial = distinct (map, segment path, note, pattern, length) tuples in which the '
         'note is violated.')
 ASSUMPTIONS = ['an element is "present" when its value is non-empty; values used are single letters so no other check depends on the pattern except required/not-used, which the baseline run removes',
                'maps that the real loader cannot load (841, see C16 finding) are covered for monitors (1)-(2) only, through the unbound parser']
-REQUIRED_COUNTERS = ['contract:evals', 'contract:evals:violated-note', 'notes', 'evals:semantic', 'evals:routing', 'violated:P', 'violated:R', 'violated:E', 'violated:C', 'violated:L', 'satisfied']
+REQUIRED_COUNTERS = ['evals:present-only-in-a-later-component', 'contract:evals', 'contract:evals:violated-note', 'notes', 'evals:semantic', 'evals:routing', 'violated:P', 'violated:R', 'violated:E', 'violated:C', 'violated:L', 'satisfied']
 MIN_CASES = {'quick': 100000, 'thorough': 100000}
 
 
@@ -89,7 +89,8 @@ def run(ctx):
                 if max(idx) > nchild:
                     ctx.count('info:note-mentions-position-beyond-segment-definition')
                 mx = max(idx)
-                variants = ['plain'] if ctx.quick else ['plain', 'rich']
+                # 'late': a present position holds ':X' - its first component is empty, a later one is not (still present)
+                variants = ['plain', 'late'] if ctx.quick else ['plain', 'rich', 'late']
                 for variant in variants:
                     for pat in itertools.product([0, 1], repeat=len(idx)):
                         for L in range(0, mx + 2):
@@ -106,6 +107,8 @@ def run(ctx):
                                 child = rseg.children[k] if k < nchild else None
                                 if variant == 'rich' and child is not None and child.kind == 'comp':
                                     txt.append('X::Y' if v else '::')
+                                elif variant == 'late':
+                                    txt.append(':X' if v else '')
                                 else:
                                     txt.append(v)
                             seg = pyx12.segment.Segment(rseg.id + ''.join('*' + v for v in txt), '~', '*', ':')
@@ -113,6 +116,8 @@ def run(ctx):
                             case = {'map': fn, 'segment': rseg.path(), 'note': note_text, 'data': seg.format(), 'length': L}
                             total += 1
                             ctx.count('evals:semantic')
+                            if variant == 'late' and any(pat):
+                                ctx.count('evals:present-only-in-a-later-component')
                             try:
                                 got, msg = pyx12.syntax.is_syntax_valid(seg, syn)
                             except Exception as ex:
